@@ -656,7 +656,7 @@ fn dict(entries: Vec<(&str, Object)>) -> Dictionary {
 /// dictionaries, an indirect string object, strings in a stream's dictionary (every second document), content / binary / empty
 /// streams, the document metadata stream, an object with a large object number (three distinct key
 /// bytes) and one with a non-zero generation number.  `xref_obj`: also an (in-memory only) XRef stream.
-fn gen_doc(rng: &mut Rng, xref_obj: bool, huge_id: bool) -> Document {
+fn gen_doc(rng: &mut Rng, xref_obj: bool, huge_id: bool, feature: &str) -> Document {
     let mut doc = Document::with_version("1.7");
     let gen = *rng.pick(&[0u16, 0, 1, 258, 65535]);
     let far: ObjectId = (if huge_id { 16_777_216 + 4660 } else { 70_003 + rng.below(1000) as u32 }, 0);
@@ -745,6 +745,41 @@ fn gen_doc(rng: &mut Rng, xref_obj: bool, huge_id: bool) -> Document {
             Object::Stream(Stream::new(dict(vec![("Type", name("XRef")), ("Size", Object::Integer(1))]), data(rng, false))),
         );
     }
+    // optional content (at most one kind per document, SecurityAlgorithms!Features)
+    if feature == "sig" {
+        // a signature dictionary: its Contents (hexadecimal, not a whole number of AES blocks) is never encrypted
+        let n = *rng.pick(&[1usize, 20, 37, 256]);
+        o.insert(
+            FEATURE_IDS[0],
+            Object::Dictionary(dict(vec![
+                ("Type", name("Sig")),
+                ("Filter", name("Adobe.PPKLite")),
+                ("SubFilter", name("adbe.pkcs7.detached")),
+                ("ByteRange", Object::Array(vec![0.into(), 100.into(), 300.into(), 50.into()])),
+                ("Contents", Object::String((0..n).map(|_| rng.byte()).collect(), StringFormat::Hexadecimal)),
+                ("Name", string(rng)),
+                ("M", Object::String(b"D:20240229120000Z".to_vec(), StringFormat::Literal)),
+            ])),
+        );
+    }
+    if feature == "crypt" {
+        // streams whose Filter names Crypt without naming a crypt filter: Identity from V 4 on
+        o.insert(FEATURE_IDS[1], Object::Stream(Stream::new(dict(vec![("Filter", name("Crypt"))]), data(rng, false))));
+        o.insert(
+            FEATURE_IDS[2],
+            Object::Stream(Stream::new(
+                dict(vec![("Filter", Object::Array(vec![name("Crypt")])), ("DecodeParms", Object::Array(vec![Object::Null]))]),
+                data(rng, true),
+            )),
+        );
+        o.insert(
+            FEATURE_IDS[3],
+            Object::Stream(Stream::new(
+                dict(vec![("Filter", name("Crypt")), ("DecodeParms", Object::Dictionary(dict(vec![("Type", name("CryptFilterDecodeParms"))])))]),
+                data(rng, false),
+            )),
+        );
+    }
     doc.max_id = far.0;
     doc.objects = o;
     // half of the files carry a classical cross-reference table, half a cross-reference stream
@@ -762,6 +797,9 @@ fn gen_doc(rng: &mut Rng, xref_obj: bool, huge_id: bool) -> Document {
     doc
 }
 
+/// object ids of the optional content
+const FEATURE_IDS: [ObjectId; 4] = [(13, 0), (14, 0), (15, 0), (16, 0)];
+
 #[derive(Clone, Debug)]
 struct Item {
     id: ObjectId,
@@ -777,6 +815,22 @@ enum Ctx {
     Nested,
     StreamDict,
     EncDict,
+}
+
+/// Filter names Crypt and the decode parameters of that filter name no crypt filter (Table 14: default Identity)
+fn crypt_without_name(s: &Stream) -> bool {
+    let filters: Vec<Vec<u8>> = match s.dict.get(b"Filter") {
+        Ok(Object::Name(n)) => vec![n.clone()],
+        Ok(Object::Array(a)) => a.iter().filter_map(|x| x.as_name().ok().map(|n| n.to_vec())).collect(),
+        _ => vec![],
+    };
+    let Some(index) = filters.iter().position(|n| n == b"Crypt") else { return false };
+    let parms = match s.dict.get(b"DecodeParms") {
+        Ok(Object::Array(a)) => a.get(index),
+        Ok(o) => Some(o),
+        Err(_) => None,
+    };
+    !matches!(parms, Some(Object::Dictionary(d)) if d.has(b"Name"))
 }
 
 fn visit_obj(id: ObjectId, obj: &mut Object, path: &str, ctx: Ctx, f: &mut dyn FnMut(ObjectId, &str, &'static str, &mut Vec<u8>)) {
@@ -803,8 +857,16 @@ fn visit_obj(id: ObjectId, obj: &mut Object, path: &str, ctx: Ctx, f: &mut dyn F
                 Ctx::Dict1 => Ctx::Nested,
                 c => c,
             };
+            let is_sig = d.has(b"ByteRange");
             for (k, x) in d.iter_mut() {
-                visit_obj(id, x, &format!("{path}/{}", String::from_utf8_lossy(k)), c, f);
+                let p = format!("{path}/{}", String::from_utf8_lossy(k));
+                if is_sig && k == b"Contents" && ctx != Ctx::EncDict {
+                    if let Object::String(b, _) = x {
+                        f(id, &p, "str.sigcontents", b);
+                        continue;
+                    }
+                }
+                visit_obj(id, x, &p, c, f);
             }
         }
         Object::Stream(s) => {
@@ -812,6 +874,8 @@ fn visit_obj(id: ObjectId, obj: &mut Object, path: &str, ctx: Ctx, f: &mut dyn F
                 "stream.meta"
             } else if s.dict.has_type(b"XRef") {
                 "stream.xref"
+            } else if crypt_without_name(s) {
+                "stream.cryptid"
             } else {
                 "stream"
             };
@@ -888,6 +952,8 @@ struct Line {
     /// legal values of the Encrypt dictionary's Length entry for this configuration (-1 = absent), canonical one
     lengths: Vec<i64>,
     canon_length: i64,
+    /// legal forms of the encryption dictionary (SecurityAlgorithms!Forms)
+    forms: Vec<String>,
 }
 
 struct Group {
@@ -909,7 +975,8 @@ fn load_terms(path: &str) -> (Vec<Line>, Vec<Group>) {
         let subjects = l["subjects"].as_object().unwrap().iter().map(|(k, v)| (k.clone(), v.as_bool().unwrap())).collect();
         lines.push(Line { cfg, terms: Terms::from_line(l), subjects, ucmp: l["ucmp"].as_u64().unwrap() as usize,
             lengths: l["lengths"].as_array().expect("lengths").iter().map(|x| x.as_i64().unwrap()).collect(),
-            canon_length: l["canonLength"].as_i64().expect("canonLength") });
+            canon_length: l["canonLength"].as_i64().expect("canonLength"),
+            forms: l["forms"].as_array().expect("forms").iter().map(|x| x["f"].as_str().unwrap().to_string()).collect() });
     }
     for l in all.iter().filter(|l| l["kind"] == "CASE") {
         let cfg = Cfg::from(l);
@@ -986,15 +1053,20 @@ fn perms_from(off: &[u32]) -> Permissions {
 fn lopdf_encrypt(doc: &mut Document, cfg: &Cfg, user: &str, owner: &str, off: &[u32], fek: &[u8]) -> Result<EncryptionState, String> {
     let permissions = perms_from(off);
     let filters = || -> (BTreeMap<Vec<u8>, Arc<dyn CryptFilter>>, Vec<u8>, Vec<u8>) {
-        if cfg.stmf == cfg.strf {
-            (BTreeMap::from([(b"StdCF".to_vec(), filter_for(&cfg.stmf))]), b"StdCF".to_vec(), b"StdCF".to_vec())
-        } else {
-            (
-                BTreeMap::from([(b"StmCF".to_vec(), filter_for(&cfg.stmf)), (b"StrCF".to_vec(), filter_for(&cfg.strf))]),
-                b"StmCF".to_vec(),
-                b"StrCF".to_vec(),
-            )
-        }
+        // the standard crypt filter Identity is named, not defined in CF
+        let mut cf: BTreeMap<Vec<u8>, Arc<dyn CryptFilter>> = BTreeMap::new();
+        let same = cfg.stmf == cfg.strf;
+        let mut nm = |m: &str, n: &[u8]| -> Vec<u8> {
+            if m == "Identity" {
+                b"Identity".to_vec()
+            } else {
+                cf.insert(n.to_vec(), filter_for(m));
+                n.to_vec()
+            }
+        };
+        let sm = nm(&cfg.stmf, if same { b"StdCF" } else { b"StmCF" });
+        let sr = nm(&cfg.strf, if same { b"StdCF" } else { b"StrCF" });
+        (cf, sm, sr)
     };
     let state = {
         let version = match cfg.v {
@@ -1059,6 +1131,7 @@ fn dict_json(d: &Dictionary) -> Value {
         let fname = d.get(f).ok().and_then(|o| o.as_name().ok()).map(|b| b.to_vec());
         match fname {
             None => String::new(),
+            Some(n) if n == b"Identity" => "Identity".to_string(),
             Some(n) => d
                 .get(b"CF")
                 .ok()
@@ -1093,6 +1166,7 @@ struct Out {
     user: Value,
     owner: Value,
     hist: Value,
+    feature: Value,
 }
 
 impl Out {
@@ -1106,6 +1180,7 @@ impl Out {
         o.entry("user").or_insert(self.user.clone());
         o.entry("owner").or_insert(self.owner.clone());
         o.insert("hist".into(), self.hist.clone());
+        o.entry("feature").or_insert(self.feature.clone());
         self.out.put(&v);
     }
     fn obs(&mut self, obs: &str, role: &str, kind: &str, n: usize, bad: usize, note: &str) {
@@ -1124,10 +1199,10 @@ fn cmp(out: &mut Out, obs: &str, role: &str, want: Result<Vec<u8>, String>, got:
     }
 }
 
-fn record_one(out: &mut Out, line: &Line, g: &Group, rng: &mut Rng, huge: bool) {
+fn record_one(out: &mut Out, line: &Line, g: &Group, rng: &mut Rng, huge: bool, feature: &str) {
     let cfg = &line.cfg;
     let with_xref = rng.chance(1, 4);
-    let plain = gen_doc(rng, with_xref, huge);
+    let plain = gen_doc(rng, with_xref, huge, feature);
     let user = pw_string(&g.user);
     let owner = pw_string(&g.owner);
     let off = pick_off(rng, cfg.r);
@@ -1219,12 +1294,13 @@ fn record_one(out: &mut Out, line: &Line, g: &Group, rng: &mut Rng, huge: bool) 
     if pm.keys().collect::<Vec<_>>() != em.keys().filter(|k| em[*k].kind != "str.encdict").collect::<Vec<_>>() {
         add("structure", "", "stream", true, "encrypt() changed the set of strings and streams".into());
     }
-    let fstr = filter_for(&cfg.strf);
-    let fstm = filter_for(&cfg.stmf);
+    // (the standard crypt filter Identity has no key)
+    let fstr = filter_for(if cfg.strf == "Identity" { "V2" } else { &cfg.strf });
+    let fstm = filter_for(if cfg.stmf == "Identity" { "V2" } else { &cfg.stmf });
     for (path, pi) in &pm {
         let Some(ei) = em.get(path) else { continue };
         let (m, which) = method_of(cfg, pi.kind);
-        if line.subjects[pi.kind] && pi.id != (0, 0) {
+        if line.subjects[pi.kind] && pi.id != (0, 0) && m != "Identity" {
             let mut e = item_env(&w, pi.id);
             let want = t.bytes(&format!("objkey.{which}"), &mut e);
             let got = guarded(|| (if which == "str" { &fstr } else { &fstm }).compute_key(&fk_l, pi.id));
@@ -1305,7 +1381,7 @@ fn record_one(out: &mut Out, line: &Line, g: &Group, rng: &mut Rng, huge: bool) 
 // ====================================================================== direction G: reference -> lopdf
 
 /// the Encrypt dictionary an ISO writer produces for the configuration
-fn ref_encrypt_dict(rng: &mut Rng, cfg: &Cfg, vals: &HashMap<&str, Vec<u8>>, p: i64, dlen: i64) -> Dictionary {
+fn ref_encrypt_dict(rng: &mut Rng, cfg: &Cfg, vals: &HashMap<&str, Vec<u8>>, p: i64, dlen: i64, form: &str) -> Dictionary {
     let mut d = Dictionary::new();
     let s = |b: &Vec<u8>, rng: &mut Rng| Object::String(b.clone(), if rng.chance(1, 2) { StringFormat::Hexadecimal } else { StringFormat::Literal });
     d.set("Filter", name("Standard"));
@@ -1330,20 +1406,32 @@ fn ref_encrypt_dict(rng: &mut Rng, cfg: &Cfg, vals: &HashMap<&str, Vec<u8>>, p: 
             }
             Object::Dictionary(f)
         };
-        if cfg.stmf == cfg.strf {
-            cf.set("StdCF", mk(&cfg.stmf, rng));
-            d.set("StmF", name("StdCF"));
-            d.set("StrF", name("StdCF"));
-        } else {
-            cf.set("StmCF", mk(&cfg.stmf, rng));
-            cf.set("StrCF", mk(&cfg.strf, rng));
-            d.set("StmF", name("StmCF"));
-            d.set("StrF", name("StrCF"));
+        // the standard crypt filter Identity is named (or, being the default, left out: forms stmf.absent / strf.absent)
+        let same = cfg.stmf == cfg.strf;
+        for (key, m, fname, absent) in [
+            ("StmF", &cfg.stmf, if same { "StdCF" } else { "StmCF" }, form == "stmf.absent"),
+            ("StrF", &cfg.strf, if same { "StdCF" } else { "StrCF" }, form == "strf.absent"),
+        ] {
+            if m == "Identity" {
+                if !absent {
+                    d.set(key, name("Identity"));
+                }
+            } else {
+                if !cf.has(fname.as_bytes()) {
+                    cf.set(fname, mk(m, rng));
+                }
+                d.set(key, name(fname));
+            }
         }
-        d.set("CF", Object::Dictionary(cf));
+        if !cf.is_empty() || rng.chance(1, 2) {
+            d.set("CF", Object::Dictionary(cf));
+        }
         if !cfg.meta || rng.chance(1, 2) {
             d.set("EncryptMetadata", Object::Boolean(cfg.meta));
         }
+    } else if form == "em.false" {
+        // "meaningful only when the value of V is 4 or 5": the metadata stream is encrypted like everything else
+        d.set("EncryptMetadata", Object::Boolean(false));
     }
     d.set("O", s(&vals["O"], rng));
     d.set("U", s(&vals["U"], rng));
@@ -1361,20 +1449,45 @@ fn lopdf_err(e: &lopdf::Error) -> String {
     s.chars().take(80).collect()
 }
 
-fn set_length(d: &mut Document, enc_id: ObjectId, len: i64) {
-    if let Some(Object::Dictionary(ed)) = d.objects.get_mut(&enc_id) {
-        if len >= 0 {
-            ed.set("Length", Object::Integer(len));
-        } else {
-            ed.remove(b"Length");
+/// One reference-encrypted document: the plaintext, what the ISO writer makes of it, where its Encrypt dictionary is.
+struct RefDoc {
+    enc: Document,
+    enc_id: Option<ObjectId>, // None: the dictionary stands directly in the trailer
+    pm: BTreeMap<String, Item>,
+}
+
+/// Does document d (after lopdf's decryption) hold the plaintext of rd?  Kinds of the items that differ.
+fn judge_plain(rd: &RefDoc, d: &Document) -> Vec<&'static str> {
+    let dm = item_map(d);
+    let mut bad = BTreeSet::new();
+    for (k, v) in &rd.pm {
+        match dm.get(k) {
+            Some(x) if x.data == v.data => {}
+            _ => {
+                bad.insert(v.kind);
+            }
         }
+    }
+    if d.trailer.has(b"Encrypt") || rd.enc_id.map(|id| d.objects.contains_key(&id)).unwrap_or(false) {
+        bad.insert("str.encdict");
+    }
+    bad.into_iter().collect()
+}
+
+fn set_perms(d: &mut Document, enc_id: Option<ObjectId>, block: Vec<u8>) {
+    let ed = match enc_id {
+        Some(id) => d.objects.get_mut(&id),
+        None => d.trailer.get_mut(b"Encrypt").ok(),
+    };
+    if let Some(Object::Dictionary(ed)) = ed {
+        ed.set("Perms", Object::String(block, StringFormat::Hexadecimal));
     }
 }
 
-fn gen_one(out: &mut Out, line: &Line, g: &Group, rng: &mut Rng, huge: bool, dlen: i64) {
+fn gen_one(out: &mut Out, line: &Line, g: &Group, rng: &mut Rng, huge: bool, dlen: i64, form: &str, feature: &str) {
     let cfg = &line.cfg;
     let t = &line.terms;
-    let plain = gen_doc(rng, false, huge);
+    let plain = gen_doc(rng, false, huge, feature);
     let user = pw_string(&g.user);
     let owner = pw_string(&g.owner);
     let off = pick_off(rng, cfg.r);
@@ -1382,8 +1495,8 @@ fn gen_one(out: &mut Out, line: &Line, g: &Group, rng: &mut Rng, huge: bool, dle
     let env_skip = |out: &mut Out, why: &str| out.put(json!({"ev": "env", "why": why}));
 
     // lopdf's writer and loader transport this (unencrypted) document unchanged?  (not this property's business)
-    let pm = item_map(&plain);
     {
+        let pm = item_map(&plain);
         let mut b = vec![];
         let mut d = plain.clone();
         let ok = guarded(|| d.save_to(&mut b).is_ok() && Document::load_mem(&b).map(|l| {
@@ -1418,35 +1531,59 @@ fn gen_one(out: &mut Out, line: &Line, g: &Group, rng: &mut Rng, huge: bool, dle
         }
     }
     let fk = vals["fk"].clone();
-    let mut enc = plain.clone();
-    let mut fail = None;
-    visit(&mut enc, &mut |id, path, kind, data| {
-        let it = Item { id, path: path.to_string(), kind, data: data.clone() };
-        let iv = rnd_bytes(rng, 16);
-        match ref_encrypt(line, &w, &it, &iv) {
-            Ok(ct) => *data = ct,
-            Err(e) => fail = Some(e),
-        }
-    });
-    if let Some(e) = fail {
-        panic!("reference writer cannot encrypt: {e}");
-    }
-    // ciphertext strings are written in hexadecimal form
-    for (_, obj) in enc.objects.iter_mut() {
-        fn hexify(o: &mut Object) {
-            match o {
-                Object::String(_, f) => *f = StringFormat::Hexadecimal,
-                Object::Array(a) => a.iter_mut().for_each(hexify),
-                Object::Dictionary(d) => d.iter_mut().for_each(|(_, v)| hexify(v)),
-                Object::Stream(s) => s.dict.iter_mut().for_each(|(_, v)| hexify(v)),
-                _ => {}
+    // the document in the requested form, and the same document in the canonical form without the optional content
+    let mut make = |plain: &Document, dlen: i64, form: &str| -> RefDoc {
+        let mut enc = plain.clone();
+        let mut fail = None;
+        visit(&mut enc, &mut |id, path, kind, data| {
+            let it = Item { id, path: path.to_string(), kind, data: data.clone() };
+            let iv = rnd_bytes(rng, 16);
+            match ref_encrypt(line, &w, &it, &iv) {
+                Ok(ct) => *data = ct,
+                Err(e) => fail = Some(e),
             }
+        });
+        if let Some(e) = fail {
+            panic!("reference writer cannot encrypt: {e}");
         }
-        hexify(obj);
-    }
-    let ed = ref_encrypt_dict(rng, cfg, &vals, p, dlen);
-    let enc_id = enc.add_object(Object::Dictionary(ed));
-    enc.trailer.set("Encrypt", Object::Reference(enc_id));
+        // ciphertext strings are written in hexadecimal form
+        for (_, obj) in enc.objects.iter_mut() {
+            fn hexify(o: &mut Object) {
+                match o {
+                    Object::String(_, f) => *f = StringFormat::Hexadecimal,
+                    Object::Array(a) => a.iter_mut().for_each(hexify),
+                    Object::Dictionary(d) => d.iter_mut().for_each(|(_, v)| hexify(v)),
+                    Object::Stream(s) => s.dict.iter_mut().for_each(|(_, v)| hexify(v)),
+                    _ => {}
+                }
+            }
+            hexify(obj);
+        }
+        let ed = ref_encrypt_dict(rng, cfg, &vals, p, dlen, form);
+        let enc_id = if form == "enc.direct" {
+            // Table 15: the value of Encrypt is the encryption dictionary - here the dictionary itself
+            enc.trailer.set("Encrypt", Object::Dictionary(ed));
+            None
+        } else {
+            let id = enc.add_object(Object::Dictionary(ed));
+            enc.trailer.set("Encrypt", Object::Reference(id));
+            Some(id)
+        };
+        RefDoc { enc, enc_id, pm: item_map(plain) }
+    };
+    let rd = make(&plain, dlen, form);
+    let variant = dlen != line.canon_length || form != "canon" || feature != "none";
+    let canon = if variant {
+        let mut pc = plain.clone();
+        for id in FEATURE_IDS {
+            pc.objects.remove(&id);
+        }
+        Some(make(&pc, line.canon_length, "canon"))
+    } else {
+        None
+    };
+    let enc = &rd.enc;
+    let pm = &rd.pm;
 
     // the reference opens its own document (a failure here is a mistake in the spec or the interpreter)
     for (role, pw) in [("user", &user), ("owner", if owner.is_empty() && cfg.r <= 4 { &user } else { &owner })] {
@@ -1465,13 +1602,37 @@ fn gen_one(out: &mut Out, line: &Line, g: &Group, rng: &mut Rng, huge: bool, dle
         if cfg.r >= 5 {
             assert_eq!(t.truth("r.perms.ok", &mut r), Ok(true), "reference rejects its own Perms");
         }
-        for it in items(&enc) {
+        for it in items(enc) {
             if it.kind == "str.encdict" {
                 continue;
             }
             assert_eq!(ref_decrypt(line, &r, &it).as_ref(), Ok(&pm[&it.path].data), "reference cannot read back {}", it.path);
         }
     }
+    // diagnosis for a document in another than the canonical form / with optional content: does the same attempt succeed
+    // on the canonical document (same keys, same passwords)?
+    let canon_opens = |pw: &str| -> &'static str {
+        match &canon {
+            None => "na",
+            Some(c) => {
+                let mut d = c.enc.clone();
+                match guarded(|| d.decrypt(pw)) {
+                    Ok(Ok(())) if judge_plain(c, &d).is_empty() => "yes",
+                    _ => "no",
+                }
+            }
+        }
+    };
+    let perms_plain_block = || -> Vec<u8> {
+        let mut q: Env = HashMap::new();
+        q.insert("fk".into(), Val::B(fk.clone()));
+        q.insert("Perms".into(), Val::B(vals["Perms"].clone()));
+        t.bytes("r.perms", &mut q).expect("r.perms")
+    };
+    let rec = |tr: Value, route: &str, au: &str, ao: &str, res: &str, err: &str, fkq: &str, bad: Vec<&'static str>, ppo: &str, co: &str| -> Value {
+        json!({"ev": "open", "user": g.user, "owner": g.owner, "try": tr, "route": route, "dlen": dlen, "form": form, "feature": feature,
+               "authU": au, "authO": ao, "res": res, "err": err, "fk": fkq, "bad": bad, "nitems": pm.len(), "permsPlainOpens": ppo, "canonOpens": co})
+    };
 
     // ---- the file
     let mut bytes = vec![];
@@ -1480,39 +1641,23 @@ fn gen_one(out: &mut Out, line: &Line, g: &Group, rng: &mut Rng, huge: bool, dle
         return env_skip(out, "save_to failed");
     }
     let loaded = guarded(|| Document::load_mem(&bytes));
-    let em = item_map(&enc);
-    let judge_plain = |d: &Document| -> Vec<&'static str> {
-        let dm = item_map(d);
-        let mut bad = BTreeSet::new();
-        for (k, v) in &pm {
-            match dm.get(k) {
-                Some(x) if x.data == v.data => {}
-                _ => {
-                    bad.insert(v.kind);
-                }
-            }
-        }
-        if d.is_encrypted() || d.objects.contains_key(&enc_id) {
-            bad.insert("str.encdict");
-        }
-        bad.into_iter().collect()
-    };
+    let em = item_map(enc);
     // file route: what load_mem returns
     let file_doc: Option<Document> = match loaded {
         Ok(Ok(l)) => {
-            if l.is_encrypted() {
+            if l.trailer.has(b"Encrypt") {
+                // still encrypted (whether or not lopdf sees that it is)
                 let lm = item_map(&l);
-                let same = em.iter().all(|(k, v)| lm.get(k).map(|x| x.data == v.data).unwrap_or(false));
+                let same = em.iter().all(|(k, v)| v.kind == "str.encdict" || lm.get(k).map(|x| x.data == v.data).unwrap_or(false));
                 if !same {
                     return env_skip(out, "encrypted document does not survive save + load");
                 }
                 Some(l)
             } else {
                 // the loader decrypted the document with the empty password
-                let bad = judge_plain(&l);
-                let empty = json!([]);
-                out.put(json!({"ev": "open", "user": g.user, "owner": g.owner, "try": empty, "route": "auto", "dlen": dlen,
-                               "authU": "na", "authO": "na", "res": "auto", "err": "", "fk": "na", "bad": bad, "nitems": pm.len(), "permsPlainOpens": "na", "canonOpens": "na"}));
+                let bad = judge_plain(&rd, &l);
+                let co = if bad.is_empty() { "na" } else { canon_opens("") };
+                out.put(rec(json!([]), "auto", "na", "na", "auto", "", "na", bad, "na", co));
                 None
             }
         }
@@ -1520,39 +1665,31 @@ fn gen_one(out: &mut Out, line: &Line, g: &Group, rng: &mut Rng, huge: bool, dle
             // load_mem failed as a whole: judged as the attempt with the empty password (the only one the loader makes)
             let mut ppo = "na";
             if cfg.r >= 5 {
-                let mut q: Env = HashMap::new();
-                q.insert("fk".into(), Val::B(fk.clone()));
-                q.insert("Perms".into(), Val::B(vals["Perms"].clone()));
-                let plainblock = t.bytes("r.perms", &mut q).expect("r.perms");
                 let mut e2 = enc.clone();
-                if let Some(Object::Dictionary(ed)) = e2.objects.get_mut(&enc_id) {
-                    ed.set("Perms", Object::String(plainblock, StringFormat::Hexadecimal));
-                }
+                set_perms(&mut e2, rd.enc_id, perms_plain_block());
                 let mut b2 = vec![];
                 ppo = match guarded(|| e2.save_to(&mut b2).ok().and_then(|_| Document::load_mem(&b2).ok())) {
-                    Ok(Some(l)) if judge_plain(&l).iter().all(|k| *k == "str.streamdict") => "yes",
+                    Ok(Some(l)) if judge_plain(&rd, &l).iter().all(|k| *k == "str.streamdict") => "yes",
                     _ => "no",
                 };
             }
-            // diagnosis: does the same file load when Length has its canonical form for this V?
-            let mut co = "na";
-            if dlen != line.canon_length {
-                let mut e2 = enc.clone();
-                set_length(&mut e2, enc_id, line.canon_length);
-                let mut b2 = vec![];
-                co = match guarded(|| e2.save_to(&mut b2).ok().and_then(|_| Document::load_mem(&b2).ok())) {
-                    Ok(Some(l)) if judge_plain(&l).is_empty() => "yes",
-                    _ => "no",
-                };
-            }
-            out.put(json!({"ev": "open", "user": g.user, "owner": g.owner, "try": json!([]), "route": "load", "dlen": dlen,
-                           "authU": "na", "authO": "na", "res": "err", "err": lopdf_err(&e), "fk": "na", "bad": Vec::<&str>::new(), "nitems": pm.len(), "permsPlainOpens": ppo,
-                           "canonOpens": co}));
+            // does the canonical document load?
+            let co = match &canon {
+                None => "na",
+                Some(c) => {
+                    let mut e2 = c.enc.clone();
+                    let mut b2 = vec![];
+                    match guarded(|| e2.save_to(&mut b2).ok().and_then(|_| Document::load_mem(&b2).ok())) {
+                        Ok(Some(l)) if judge_plain(c, &l).is_empty() => "yes",
+                        _ => "no",
+                    }
+                }
+            };
+            out.put(rec(json!([]), "load", "na", "na", "err", &lopdf_err(&e), "na", vec![], ppo, co));
             None
         }
         Err(p) => {
-            out.put(json!({"ev": "open", "user": g.user, "owner": g.owner, "try": json!([]), "route": "load", "dlen": dlen,
-                           "authU": "na", "authO": "na", "res": "panic", "err": p, "fk": "na", "bad": Vec::<&str>::new(), "nitems": pm.len(), "permsPlainOpens": "na", "canonOpens": "na"}));
+            out.put(rec(json!([]), "load", "na", "na", "panic", &p, "na", vec![], "na", "na"));
             None
         }
     };
@@ -1586,41 +1723,26 @@ fn gen_one(out: &mut Out, line: &Line, g: &Group, rng: &mut Rng, huge: bool, dle
         };
         let mut d = base.clone();
         let (res, err, bad) = match guarded(|| d.decrypt(&pw)) {
-            Ok(Ok(())) => ("ok", String::new(), judge_plain(&d)),
+            Ok(Ok(())) => ("ok", String::new(), judge_plain(&rd, &d)),
             Ok(Err(e)) => ("err", lopdf_err(&e), vec![]),
             Err(p) => ("panic", p, vec![]),
         };
         // diagnosis for revisions 5-6: does the same attempt succeed when /Perms holds the unencrypted block?
         let mut ppo = "na";
         if cfg.r >= 5 && res == "err" {
-            let mut q: Env = HashMap::new();
-            q.insert("fk".into(), Val::B(fk.clone()));
-            q.insert("Perms".into(), Val::B(vals["Perms"].clone()));
-            let plainblock = t.bytes("r.perms", &mut q).expect("r.perms");
             let mut d2 = base.clone();
-            if let Some(Object::Dictionary(ed)) = d2.objects.get_mut(&enc_id) {
-                ed.set("Perms", Object::String(plainblock, StringFormat::Hexadecimal));
-            }
+            set_perms(&mut d2, rd.enc_id, perms_plain_block());
             ppo = match guarded(|| d2.decrypt(&pw)) {
-                Ok(Ok(())) if judge_plain(&d2).iter().all(|k| *k == "str.streamdict") => "yes",
+                Ok(Ok(())) if judge_plain(&rd, &d2).iter().all(|k| *k == "str.streamdict") => "yes",
                 _ => "no",
             };
         }
-        // diagnosis for a Length entry in other than its canonical form: does the same attempt succeed with the canonical one?
-        let mut co = "na";
         let expected = c["expUser"] == json!(true) || c["expOwner"] == json!(true);
-        if dlen != line.canon_length && expected && (res != "ok" || !bad.is_empty()) {
-            let mut d3 = base.clone();
-            set_length(&mut d3, enc_id, line.canon_length);
-            co = match guarded(|| d3.decrypt(&pw)) {
-                Ok(Ok(())) if judge_plain(&d3).is_empty() => "yes",
-                _ => "no",
-            };
-        }
-        out.put(json!({"ev": "open", "user": g.user, "owner": g.owner, "try": c["try"], "route": route, "dlen": dlen,
-                       "authU": au, "authO": ao, "res": res, "err": err, "fk": fkq, "bad": bad, "nitems": pm.len(), "permsPlainOpens": ppo,
-                       "canonOpens": co,
-                       "expUser": c["expUser"], "expOwner": c["expOwner"]}));
+        let co = if expected && (res != "ok" || !bad.is_empty()) { canon_opens(&pw) } else { "na" };
+        let mut r = rec(c["try"].clone(), route, au, ao, res, &err, fkq, bad, ppo, co);
+        r["expUser"] = c["expUser"].clone();
+        r["expOwner"] = c["expOwner"].clone();
+        out.put(r);
     }
 }
 
@@ -1671,7 +1793,7 @@ fn main() {
             std::process::exit(2);
         }
     };
-    let mut out = Out { out: NdjsonOut::create(&outp), dir, doc: 0, cfg: json!({}), absent: false, user_empty: false, user: json!([]), owner: json!([]), hist: json!(hist) };
+    let mut out = Out { out: NdjsonOut::create(&outp), dir, doc: 0, cfg: json!({}), absent: false, user_empty: false, user: json!([]), owner: json!([]), hist: json!(hist), feature: json!("none") };
     // the groups in a seeded order; n >= groups.len() visits every (configuration, password pair)
     let mut order: Vec<usize> = (0..groups.len()).collect();
     Rng::new(seed ^ 0xC06).shuffle(&mut order);
@@ -1694,7 +1816,14 @@ fn main() {
         a.extend(b);
         front = a;
     }
-    for i in 0..n {
+    // --part k/m: this process handles the documents i with i mod m = k (the check runs the parts side by side)
+    let (pk, pmod) = arg(&args, "--part")
+        .map(|p| {
+            let (a, b) = p.split_once('/').expect("--part k/m");
+            (a.parse::<usize>().unwrap(), b.parse::<usize>().unwrap())
+        })
+        .unwrap_or((0, 1));
+    for i in (0..n).filter(|i| i % pmod == pk) {
         let gi = front[i % front.len()];
         let g = &groups[gi];
         let line = &lines[g.line];
@@ -1707,12 +1836,30 @@ fn main() {
         out.owner = g.owner.clone();
         assert_eq!(out.absent && line.cfg.r <= 4, line.cfg.absent, "TERMS / CASE mismatch on the absent owner password");
         let huge = i % 97 == 13;
+        // One deviation from the canonical document at a time, every second document canonical: another legal form of the
+        // Length entry, another legal form of the dictionary (SecurityAlgorithms!Forms), optional content (Features).
+        // Configurations with the Identity filter vary the forms only.
+        let k = i + seed as usize;
+        let id_cfg = line.cfg.stmf == "Identity" || line.cfg.strf == "Identity";
         if dir == "V" {
-            record_one(&mut out, line, g, &mut rng, huge);
+            let feats: &[&str] = if id_cfg { &["none"] } else { &["none", "sig", "none", "crypt"] };
+            out.feature = json!(feats[k % feats.len()]);
+            record_one(&mut out, line, g, &mut rng, huge, feats[k % feats.len()]);
         } else {
-            // every legal form of the Length entry in turn (rounds of the check shift the choice through --seed)
-            let dlen = line.lengths[(i + seed as usize) % line.lengths.len()];
-            gen_one(&mut out, line, g, &mut rng, huge, dlen);
+            let mut variants: Vec<(i64, String, &str)> = vec![];
+            for l in line.lengths.iter().filter(|l| **l != line.canon_length && !id_cfg) {
+                variants.push((*l, "canon".into(), "none"));
+            }
+            for f in line.forms.iter().filter(|f| *f != "canon" && (!id_cfg || f.ends_with(".absent"))) {
+                variants.push((line.canon_length, f.clone(), "none"));
+            }
+            if !id_cfg {
+                variants.push((line.canon_length, "canon".into(), "sig"));
+                variants.push((line.canon_length, "canon".into(), "crypt"));
+            }
+            let (dlen, form, feature) = if k % 2 == 0 { (line.canon_length, "canon".to_string(), "none") } else { variants[(k / 2) % variants.len()].clone() };
+            out.feature = json!(feature);
+            gen_one(&mut out, line, g, &mut rng, huge, dlen, &form, feature);
         }
     }
     out.out.finish();
